@@ -84,3 +84,14 @@ Definition checkQ : @case Q -> bool := check closeQ.
 Definition checkC : @case (Q * Q) -> bool := check closeC.
 Definition checkpQ : @pcase Q -> bool := checkp closeQ.
 Definition checkpC : @pcase (Q * Q) -> bool := checkp closeC.
+
+From Coq Require Import Qabs Qminmax.
+(* purely RELATIVE closeness (no absolute floor): for the extreme-magnitude cases, whose arithmetic is exact
+   (small integers times powers of two), so that a defect of relative size O(1) in a tiny quantity is visible *)
+Definition relq : Q := 1 # 1000000000000.
+Definition closeRelQ (a b : Q) : bool := Qle_bool (Qabs (a - b)) (relq * Qmax (Qabs a) (Qabs b)).
+Definition closeRelC (a b : Q * Q) : bool :=
+  let m := Qmax (Qabs (fst a) + Qabs (snd a)) (Qabs (fst b) + Qabs (snd b)) in
+  Qle_bool (Qabs (fst a - fst b)) (relq * m) && Qle_bool (Qabs (snd a - snd b)) (relq * m).
+Definition checkRelQ : @case Q -> bool := check closeRelQ.
+Definition checkRelC : @case (Q * Q) -> bool := check closeRelC.
